@@ -106,3 +106,17 @@ Definition chunk_img (N : ncch) (c : Z) : list Z :=
 Fixpoint chunks_from (c : Z) (n : nat) : list Z := match n with O => [] | S n => c :: chunks_from (c + 0x200) n end.
 
 Definition image (N : ncch) : list Z := concat (map (chunk_img N) (chunks_from 0 (Z.to_nat (n_content N / 0x200)))).
+
+(* Since the repair for C19 the FullDecrypted branch first cuts the request down to what the FILE holds ([avail] = length of the
+   file counted from the container's start), after the generic clamp at the declared size: the per-media-unit work below is then
+   bounded by the file, whatever size the header declares. *)
+Definition avail_size (content avail off size : Z) : Z :=
+  let size := if off + size >? content then content - off else size in
+  Z.max (Z.min size (avail - off)) 0.
+
+Definition fulldec_read_avail (N : ncch) (avail off size : Z) : list Z :=
+  fulldec_read N off (avail_size (n_content N) avail off size).
+
+(* the number of 0x200-byte units one read walks over *)
+Definition fulldec_units (content avail off size : Z) : Z :=
+  (avail_size content avail off size + off mod 0x200 + 0x1FF) / 0x200.
